@@ -178,7 +178,7 @@ func cloneCase(cs Case) Case {
 	for i, n := range cs.G.Nodes {
 		out.G.Nodes[i] = Node{Name: n.Name, Ver: n.Ver, Errs: append([]NodeErr(nil), n.Errs...)}
 	}
-	out.G.Edges = append([]Edge(nil), cs.G.Edges...)
+	out.G.Edges = append([]Edge{}, cs.G.Edges...)
 	out.Rel.Perm = append([]int(nil), cs.Rel.Perm...)
 	out.Rel.Reverse = cs.Rel.Reverse
 	out.Rel.EdgeOrder = append([]int(nil), cs.Rel.EdgeOrder...)
